@@ -57,6 +57,12 @@ CHECKS = {
  "C19": ("explicit-state breadth-first search of the subscription registry through the real API: all canonical registry states with <= 2 live subscriptions over the full alphabet and <= 3 over a reduced one (thorough 3 / 4), every operation from every state (successor = shortest-path replay on a fresh root + 1 operation), compared with a reference registry on every transition; all unmerged histories of length 4 (thorough 5) with a probe publish as cross-check of the state merge",
          "Every (state, operation) transition in the bound is executed on the real root: deliveries (who, what message, in which order), returned counts, removal and exactly-once clean-up, silence after unsubscribe.",
          "Canonical state = ordered list of (selection, id, kind, remaining failure script), justified because the implementation's only registry state is that slice; matching semantics are the harness subscriber's.", "5.19"),
+ "C12": ("stateless model checking of the real implementation: every interleaving with <= 2 (thorough 3) preemptions of 2-3 goroutines resolving menu requests against one cold root, under a hand-written cooperative scheduler that owns every Mutex operation of pkg/ggql through a build-time sync shim (go build -overlay); oracle = response equals the request's response alone on a cold root, no deadlock; plus a free-running race-detector pass of the same bodies for the data-race conjunct",
+         "All schedules within the preemption bound are executed for all request pairs (and binding-heavy triples) under reflection (3 binding modes), Resolver and root-resolver roots; the race pass (32 goroutines x 150 cold roots per configuration) is sampling and labelled so.",
+         "Lock-only choice points, justified by data-race freedom which the race pass checks; 2-3 goroutines under the scheduler.", "5.12"),
+ "C20": ("stateless model checking of the real implementation: every interleaving with <= 2 (thorough 3) preemptions of 2-3 goroutines calling publish / subscribe / unsubscribe on one registry (6 initial registries x all pairs and triples of single-call threads and pairs of two-call threads x Resolver / reflection events), under the cooperative scheduler over the sync shim; oracle = the stated guarantees from logical-clock logs, final registry explained by some real-time-consistent sequential order, full linearizability (brute force) for failure-free histories; plus the free-running race-detector pass",
+         "All schedules within the preemption bound are executed and every one is checked against the guarantees the property lists; detection was demonstrated on a change that cleans up failed subscribers without the identity re-check (double clean-up found in 7630 schedules).",
+         "Lock-only choice points; preemption bounded, not unbounded; race pass is sampling.", "5.20"),
 }
 
 NOT_YET = {}
@@ -85,7 +91,7 @@ def main():
         "version": 1,
         "setup_cmd": "bin/setup.sh",
         "hooks": {
-            "guard": "none - no in-tree hooks: instrumentation is a go build -overlay generated from /repo's working tree (sync -> scheduler shim)",
+            "guard": "none - no in-tree hooks: instrumentation is a go build -overlay generated from /repo's working tree (sync -> scheduler shim, bin/mkoverlay.py); build tag vsched selects the scheduler-driven checks in the harness only",
             "enable": "bin/build.sh (mkoverlay + go build -overlay build/overlay.json)",
             "baseline_off_cmd": "bin/baseline.sh",
             "source_commits": [],
